@@ -236,6 +236,32 @@ def r2_3(ctx, rc):
                 f0.file, 0, f0.qualname) + ' #%d' % (
                     [l for l in ast.walk(f0.node) if isinstance(
                         l, (ast.For, ast.While))].index(lp))
+            # ... or by an exception: a handler that swallows the failure of
+            # one element stands inside the loop; a handler around the loop
+            # ends the sweep at the first failure
+            if isinstance(lp, ast.For):
+                for tr in ast.walk(f0.node):
+                    if isinstance(tr, ast.Try) and tr.handlers and any(
+                            lp is st or any(lp is y for y in ast.walk(st))
+                            for st in tr.body):
+                        mayfail = [c for c in ctx.prog.calls_in(f0)
+                                   if any(c is y for y in ast.walk(lp)) and
+                                   any((not isinstance(g, Func)) and
+                                       ctx.E.eff.classify(g, c, f0)[1]
+                                       for g in ctx.prog.resolve_call(c, f0))]
+                        # ... unless an inner handler of the loop body
+                        # catches it first
+                        def covered(c):
+                            n = c
+                            while n is not None and n is not lp:
+                                n = ctx.prog.parent(n)
+                                if isinstance(n, ast.Try) and n.handlers \
+                                        and any(c is y for b in n.body
+                                                for y in ast.walk(b)):
+                                    return True
+                            return False
+                        if any(not covered(c) for c in mayfail):
+                            leaves.append(tr)
             if leaves and isinstance(lp, ast.For):
                 rc.violation(
                     'rollback-loop-left | ' + f0.qualname,
@@ -781,6 +807,23 @@ def r2_8(ctx, rc):
     n = 0
     for call in ctx.prog.calls_in(rb):
         f = call.func
+        if isinstance(f, ast.Attribute) and f.attr in (
+                'get_file', 'get_norm_cased_file', 'has_norm_cased_file',
+                'get_subbuild', 'has_subbuild'):
+            cns = ctx.H.node_of(rb, call)
+            roles = ctx.H.expr_roles(f.value, rb, cns[0]) if cns else set()
+            if roles and roles != {'not-a-cache'}:
+                n += 1
+                rc.violation(
+                    'rollback-question | %s | %s' % (rb.qualname, f.attr),
+                    'rollback decides by %s() of the %s cache: the only '
+                    'question that tells what the previous build left on '
+                    'disk is created_file() of the old cache (a record of '
+                    'a failed call exists without a file)' % (
+                        f.attr, '/'.join(sorted(roles))),
+                    ctx.prog.loc(rb, call),
+                    key='rollback asks only created_* questions')
+            continue
         if not (isinstance(f, ast.Attribute) and f.attr in want):
             continue
         cns = ctx.H.node_of(rb, call)
